@@ -186,6 +186,15 @@ type altActivateResp struct {
 func (*altActivateResp) Operation() kmip.Operation { return kmip.OperationActivate }
 
 func payloadTree(rt *rapid.T, op kmip.Operation) string {
+	if op == kmip.OperationDiscoverVersions && rapid.IntRange(0, 3).Draw(rt, "plausibleversions") != 0 {
+		// a version list a real server could send (so that what else the answer says decides, not an empty intersection)
+		pl := &ttlvref.Node{Tag: tResponsePayload, Type: ttlvref.Structure}
+		for _, v := range rapid.SliceOfNDistinct(rapid.SampledFrom([][2]int64{{1, 4}, {1, 3}, {1, 2}, {1, 1}, {1, 0}, {2, 0}}), 1, 4, func(x [2]int64) [2]int64 { return x }).Draw(rt, "versions") {
+			pl.Kids = append(pl.Kids, &ttlvref.Node{Tag: tProtoVersion, Type: ttlvref.Structure, Kids: []*ttlvref.Node{
+				{Tag: 0x42006A, Type: ttlvref.Integer, I: v[0]}, {Tag: 0x42006B, Type: ttlvref.Integer, I: v[1]}}})
+		}
+		return hex.EncodeToString(ttlvref.Write(pl))
+	}
 	for _, e := range gen.Ops {
 		if e.Op == op {
 			g := gen.NewG(rt, gen.MsgOpts{Alphabet: "ascii", TextSafe: true})
@@ -446,6 +455,22 @@ func c12Run(c c12Case) (sig string, err error) {
 		}()
 		if perr != nil {
 			return "dial-panics", perr
+		}
+		if derr != nil && len(srv.Requests) > 0 {
+			// connecting failed: whatever the counts, what the failed items of a decodable discovery answer say is in the error
+			rp := c.Plans[0]
+			if reqTree, perr := ttlvref.Parse(srv.Requests[0], ttlvref.Lenient); perr == nil {
+				var rm kmip.ResponseMessage
+				if safely(func() error { return ttlv.UnmarshalTTLV(buildResponse(rp, reqTree), &rm) }) == nil {
+					for i, ip := range rp.Items {
+						if ip.Status == 1 {
+							if s := checkErrorCarries(derr, ip); s != "" {
+								return "dial-" + s, fmt.Errorf("Dial() = %v does not carry failed item %d %+v of the discovery answer (%d items, header delta %d)", derr, i, ip, len(rp.Items), rp.HeaderCount)
+							}
+						}
+					}
+				}
+			}
 		}
 		if derr == nil {
 			defer cl.Close()
